@@ -77,7 +77,9 @@ SPEC = {
             "3 follower RegionSyncers running the real StartSyncWithLeader loop: populate 0-320 regions, well-formed "
             "changes (leader/flow/membership/split/merge/stale) or arbitrary region reports, connect (GetRegions order "
             "asc/desc/rot/evenodd)/check/disconnect/follower restart, burst (2-5 changes notified while a live follower's "
-            "stream is busy: its Send is parked before it serialises, released 50 ms later), or (c) the malformed stream: hand-made messages on a "
+            "stream is busy: its Send is parked before it serialises, the others queue up and leave as one message; often the same "
+            "region twice with a leader change in between), lrestart (leader process restart: index reloaded from the kv, "
+            "everybody reconnects, a change is broadcast at once), or (c) the malformed stream: hand-made messages on a "
             "follower's stream with missing stats, fewer leaders than regions, leader peer id 0, mismatching start index "
             "(correspondence only); non-trivial = (a) records, a wrapped or shifted "
             "window and a RecordsFrom query, (b) a connection that transported regions followed by a comparison of "
